@@ -205,3 +205,27 @@ Proof.
     [discriminate|].
   unfold fits in Ef. lia.
 Qed.
+
+(* the refinement in the shape "abstraction of the bytes after = edit applied to the abstraction of
+   the bytes before", with the refusal clause *)
+Theorem ed_b_apply_abs q e :
+  ed_pwf q -> ed_op_ok e ->
+  exists r p',
+    ed_b_apply (ed_of_pdu q) e = Some (r, p') /\
+    ed_abs (ed_of_pdu q) = Some (p_msg q) /\
+    r = fst (ed_apply q e) /\
+    ed_abs p' = Some (p_msg (snd (ed_apply q e))) /\
+    (r = false ->
+     p' = ed_of_pdu q \/
+     exists n v, (e = EdInsert n v \/ e = EdUpdate n v) /\ ed_hop_trigger (p_msg q) n = true /\
+                 p' = ed_of_pdu (snd (add_opt_raw q 16 [16]))).
+Proof.
+  intros W He. exists (fst (ed_apply q e)), (ed_of_pdu (snd (ed_apply q e))).
+  split; [apply ed_b_apply_refines; assumption|].
+  split; [apply ed_abs_of_pdu; destruct W; assumption|].
+  split; [reflexivity|].
+  split; [apply ed_abs_of_pdu; apply (ed_pwf_apply q e W He)|].
+  intros Hr. destruct (ed_apply_refused q e Hr) as [->|(n & v & H1 & H2 & ->)].
+  - left. reflexivity.
+  - right. exists n, v. tauto.
+Qed.
